@@ -931,6 +931,22 @@ func corpus() []Input {
 		h.Steps = world.EncodeHistory([][]pipeline.Change{{{Op: pipeline.Create, Obj: ing2}}})
 		out = append(out, h)
 	}
+	// full sync: an older ingress declares the default host's root as Exact, a newer ingress has
+	// spec.defaultBackend: its ("/", begin) path of the default host is another (host, path, type) and must
+	// be there: other.example/x reaches svc2 through the default host, "/" exactly reaches svc1
+	{
+		old := world.Ingress("ns1", "ing1", 10, world.IngRule{Host: "", Paths: []world.IngPath{{Path: "/", Type: "Exact", Service: "svc1", PortNum: 80}}})
+		young := world.Ingress("ns1", "ing2", 20)
+		b := world.Backend("svc2", "", 80)
+		young.Spec.DefaultBackend = &b
+		out = append(out, mk("default host: older Exact / and a newer ingress with spec.defaultBackend", "", false,
+			[]Req{{false, "other.example", "/x"}, {false, "other.example", "/"}, {true, "other.example", "/x"}, {false, "a.example", "/app"}},
+			world.Service("ns1", "svc1", world.SvcPort{Name: "http", Port: 80, TargetPort: intstr.FromInt(8080)}),
+			world.Endpoints("ns1", "svc1", world.EpPort{Name: "http", Port: 8080, Ready: []string{"10.0.0.1"}}),
+			world.Service("ns1", "svc2", world.SvcPort{Name: "http", Port: 80, TargetPort: intstr.FromInt(8080)}),
+			world.Endpoints("ns1", "svc2", world.EpPort{Name: "http", Port: 8080, Ready: []string{"10.0.0.2"}}),
+			old, young))
+	}
 	// witness of C03_maps_agree_refuted: /api ImplementationSpecific and /api Prefix on one host (plus / Prefix).
 	// The request /api is ambiguous (left unjudged: C04 leaves the order of equal-length rules
 	// unspecified); the real maps answer the begin rule (svc1), like the model of the generator.
